@@ -453,7 +453,7 @@ FeatS == {"arr", "ptr", "replace", "null"}
 FeatK == {"obj", "cs", "replace", "null"}
 FeatKB == {"obj"}
 \* duplicating object members that own a key and a string, every request of the copy refused in turn
-FeatODF == {"obj", "dup", "fail"}
+FeatODF == {"obj", "cs", "dup", "fail"}
 \* constant keys under a refused request: an item that carries a constant key from an earlier life is added / used as a replacement by key
 FeatCF == {"obj", "cs", "fail", "replace"}
 \* bulk array constructors (count -1..2, NULL input) and what array edits do to the arrays they made
